@@ -211,7 +211,7 @@ Section Run.
     - (* Compile *)
       unfold x_compile. destruct (g_err (x_st xs)) eqn:Er.
       + unfold compile. rewrite Er. split; [reflexivity | exact I].
-      + rewrite (gen_compile_checks_agrees xs KT Er). destruct (C.compile_checks xs); simpl.
+      + rewrite (gen_compile_checks_agrees xs KT I Er). destruct (C.compile_checks xs); simpl.
         * split; [reflexivity | apply gh_inv_with; auto].
         * split; [reflexivity | exact I].
   Qed.
